@@ -862,7 +862,8 @@ fn ingress_run(part: &'static str, k: usize, seq: Vec<usize>, order_kind: &'stat
     if !opts.is_empty() {
         out.count("ingress_datagrams_with_ipv4_options", 1);
     }
-    let frames = match crate::sim::dgram::frames_for_opts(&cfg, &inb, rng.u16(), &cuts, opts) {
+    let ident_b = rng.u16();
+    let frames = match crate::sim::dgram::frames_for_opts(&cfg, &inb, ident_b, &cuts, opts) {
         Ok(f) => f,
         Err(e) => {
             out.harness_errors.push(format!("cannot fragment: {} (sizes {:?})", e, sizes));
@@ -918,6 +919,56 @@ fn ingress_run(part: &'static str, k: usize, seq: Vec<usize>, order_kind: &'stat
     let one_poll = rng.bool();
     let mut now: Micros = rng.range(0, 1_000_000) as Micros;
     let mut trace = Vec::new();
+    // ---- one case in four: the reassembly slot has a history (seeded change C12-r10-1).  Some, not
+    // all, fragments of an earlier datagram arrive, the reassembly timeout (60 s) passes, a poll
+    // runs - and only then the datagram under test arrives.  The earlier datagram never completes,
+    // so the oracle below is unchanged: what it left behind must not matter.
+    let mut prng = Rng::new(tag ^ 0x51ee_d012);
+    if prng.chance(1, 4) {
+        let ka = prng.urange(2, 6);
+        let mut sizes_a: Vec<usize> = (0..ka - 1).map(|_| 8 * prng.urange(1, 30)).collect();
+        sizes_a.push(prng.urange(1, 64));
+        let la: usize = sizes_a.iter().sum();
+        let pl_a = payload(tag, 1, 0, la - 8);
+        let sport_a = if prng.bool() { sport } else { 9100 + prng.range(0, 99) as u16 };
+        let l4a = iudp::build(&peer.v4, &host_addr(false), sport_a, 5000, &pl_a, true);
+        let inb_a = Inbound { src: peer.v4, dst: host_addr(false), proto: ip::PROTO_UDP, hop: 64, l4: l4a, src_mac: peer.link_mac() };
+        let mut cuts_a = Vec::new();
+        let mut oa = 0;
+        for s in &sizes_a[..ka - 1] {
+            oa += s;
+            cuts_a.push(oa);
+        }
+        let ident_a = ident_b.wrapping_add(1 + prng.below(1000) as u16);
+        match crate::sim::dgram::frames_for_opts(&cfg, &inb_a, ident_a, &cuts_a, &[]) {
+            Ok(fa) if fa.len() == ka => {
+                // a strict, non-empty subset in a random order
+                let mut idxs: Vec<usize> = (0..ka).collect();
+                let drop = prng.usize_below(ka);
+                idxs.remove(drop);
+                while idxs.len() > 1 && prng.chance(1, 3) {
+                    let d = prng.usize_below(idxs.len());
+                    idxs.remove(d);
+                }
+                for i in (1..idxs.len()).rev() {
+                    let j = prng.usize_below(i + 1);
+                    idxs.swap(i, j);
+                }
+                for i in &idxs {
+                    host.dev.rx.push_back(fa[*i].clone());
+                    trace.push(format!("earlier-datagram-frag{}of{}", i, ka));
+                    host.poll(now);
+                    now += prng.range(0, 2_000) as Micros;
+                }
+                now += prng.range(61_000_000, 300_000_000) as Micros;
+                host.poll(now);
+                trace.push("(reassembly-timeout-passed,poll)".into());
+                out.count("ingress_cases_after_an_expired_partial_datagram", 1);
+            }
+            Ok(_) => {}
+            Err(e) => out.harness_errors.push(format!("cannot fragment the earlier datagram: {}", e)),
+        }
+    }
     for f in &seq {
         host.dev.rx.push_back(frames[*f].clone());
         trace.push(format!("frag{}[{}..{})", f, offs[*f], offs[*f] + sizes[*f]));
